@@ -135,5 +135,30 @@ def clipByGlobalNorm (sqrt : α → α) (maxNorm : α) (g : List α) : List α :
 def adamFirstStep (sqrt : α → α) (lr eps : α) (g : List α) : List α :=
   g.map (fun x => -(lr * (x / (sqrt (x * x) + eps))))
 
+/-- `optax.adam` over a sequence of gradients (moments start at zero; bias correction
+    `1 - b^t`): returns the update of every step -/
+def powN (x : α) : Nat → α
+  | 0 => 1
+  | n + 1 => powN x n * x
+
+def adamRun (sqrt : α → α) (lr eps b1 b2 : α) : List (List α) → List α → List α → Nat → List (List α)
+  | [], _, _, _ => []
+  | g :: gs, m, v, t =>
+      let m' := List.zipWith (fun mi gi => b1 * mi + (1 - b1) * gi) m g
+      let v' := List.zipWith (fun vi gi => b2 * vi + (1 - b2) * (gi * gi)) v g
+      let t' := t + 1
+      let upd := List.zipWith (fun mi vi =>
+        -(lr * ((mi / (1 - powN b1 t')) / (sqrt (vi / (1 - powN b2 t')) + eps)))) m' v'
+      upd :: adamRun sqrt lr eps b1 b2 gs m' v' t'
+
+/-- the configured optimiser `optax.chain(clip_by_global_norm(max), adam(lr))` over a sequence of
+    raw gradients: every gradient is clipped BEFORE it enters Adam's moment estimates -/
+def clipThenAdam (sqrt : α → α) (maxNorm lr eps b1 b2 : α) (grads : List (List α)) : List (List α) :=
+  match grads with
+  | [] => []
+  | g :: _ =>
+      adamRun sqrt lr eps b1 b2 (grads.map (clipByGlobalNorm sqrt maxNorm))
+        (g.map (fun _ => 0)) (g.map (fun _ => 0)) 0
+
 end
 end Lerax.Loss
